@@ -1,6 +1,8 @@
 package main
 
 import (
+	"cuelabs.dev/go/oci/ociregistry/ocimem"
+	ocispec "github.com/opencontainers/image-spec/specs-go/v1"
 	"context"
 	"encoding/base64"
 	"encoding/json"
@@ -240,6 +242,102 @@ func (s *c15State) unified(ri *regInterp, pol int, t []string) string {
 	return out
 }
 
+// failNthWrite makes the n-th Write on any upload of the wrapped member fail (once).
+type failNthWrite struct {
+	ociregistry.Interface
+	n     int
+	seen  *int
+	fired *bool
+}
+
+type failWriter struct {
+	ociregistry.BlobWriter
+	m failNthWrite
+}
+
+func (w failWriter) Write(p []byte) (int, error) {
+	*w.m.seen++
+	if *w.m.seen == w.m.n && !*w.m.fired {
+		*w.m.fired = true
+		return 0, errors.New("member: write failed")
+	}
+	return w.BlobWriter.Write(p)
+}
+
+func (m failNthWrite) PushBlobChunked(ctx context.Context, repo string, chunkSize int) (ociregistry.BlobWriter, error) {
+	w, err := m.Interface.PushBlobChunked(ctx, repo, chunkSize)
+	if err != nil {
+		return nil, err
+	}
+	return failWriter{w, m}, nil
+}
+
+func (m failNthWrite) PushBlobChunkedResume(ctx context.Context, repo, id string, offset int64, chunkSize int) (ociregistry.BlobWriter, error) {
+	w, err := m.Interface.PushBlobChunkedResume(ctx, repo, id, offset, chunkSize)
+	if err != nil {
+		return nil, err
+	}
+	return failWriter{w, m}, nil
+}
+
+// c15Diverge: `uni diverge <which member fails> <on its n-th write>`: an upload through the unifier in
+// which one Write reaches one member only; the caller closes, resumes by asking where the upload
+// stands (-1), writes what is missing according to the writer it gets, and commits. Either the unifier
+// refuses to go on, or the two members end up holding the same: the blob on both, or on neither.
+func c15Diverge(failSecond bool, nth int) string {
+	ctx := context.Background()
+	m0, m1 := ocimem.New(), ocimem.New()
+	seen, fired := 0, false
+	var a, b ociregistry.Interface = m0, m1
+	if failSecond {
+		b = failNthWrite{m1, nth, &seen, &fired}
+	} else {
+		a = failNthWrite{m0, nth, &seen, &fired}
+	}
+	u := ociunify.New(a, b, nil)
+	content := []byte("hello world, twice over")
+	parts := [][]byte{content[:5], content[5:11], content[11:]}
+	w, err := u.PushBlobChunked(ctx, "a", 0)
+	if err != nil {
+		return "diverge start failed"
+	}
+	accepted := 0
+	for _, p := range parts {
+		if _, err := w.Write(p); err != nil {
+			break
+		}
+		accepted += len(p)
+	}
+	if !fired {
+		return "diverge ok (no fault reached)"
+	}
+	id := w.ID()
+	w.Close()
+	w2, err := u.PushBlobChunkedResume(ctx, "a", id, -1, 0)
+	if err != nil {
+		return "diverge ok (resume refused)"
+	}
+	defer w2.Close()
+	at := int(w2.Size())
+	if at < 0 || at > len(content) {
+		return fmt.Sprintf("diverge: resumed writer reports size %d", at)
+	}
+	if _, err := w2.Write(content[at:]); err != nil {
+		return "diverge ok (write refused)"
+	}
+	dg := ociregistry.Digest(sha256Digest(content))
+	_, cerr := w2.Commit(dg)
+	_, e0 := m0.ResolveBlob(ctx, "a", dg)
+	_, e1 := m1.ResolveBlob(ctx, "a", dg)
+	if (e0 == nil) != (e1 == nil) {
+		return fmt.Sprintf("diverge: members differ after the resumed upload (commit error: %v; on member 0: %v, on member 1: %v)", cerr, e0 == nil, e1 == nil)
+	}
+	if cerr == nil && e0 != nil {
+		return "diverge: commit reported success but neither member has the blob"
+	}
+	return "diverge ok"
+}
+
 func (*c15) Impl(c Case) []string {
 	out := make([]string, len(c.Lines))
 	var s *c15State
@@ -267,6 +365,11 @@ func (*c15) Impl(c Case) []string {
 				s = newC15State(0, false, c)
 			}
 			switch t[1] {
+			case "diverge":
+				if len(t) != 4 {
+					return "bad-op"
+				}
+				return c15Diverge(t[2] == "1", atoi(t[3]))
 			case "snap":
 				if len(t) != 2 {
 					return "bad-op"
@@ -492,6 +595,16 @@ func (g *c15Gen) prep(rel string) {
 		// same digest, different media type recorded for the tag
 		g.add("m0", linePushManifest("a", "_", u.manifests[4].data, mtOpaque))
 		g.add("m1", linePushManifest("a", "_", u.manifests[4].data, "application/x-other"))
+		// one referrer, the same bytes, stored as an image manifest on one member and as an index on the
+		// other: it is still one referrer
+		{
+			m1 := u.manifests[0]
+			cfg := u.blobs[4]
+			both := []byte(fmt.Sprintf(`{"schemaVersion":2,"config":{"mediaType":"application/octet-stream","digest":%q,"size":%d},"layers":[],"manifests":[],"subject":{"mediaType":%q,"digest":%q,"size":%d}}`,
+				sha256Digest(cfg), len(cfg), m1.mt, sha256Digest(m1.data), len(m1.data)))
+			g.add("m0", linePushManifest("a", "", both, ocispec.MediaTypeImageManifest))
+			g.add("m1", linePushManifest("a", "", both, ocispec.MediaTypeImageIndex))
+		}
 	case "onesided":
 		pushAll("m0", "a")
 		pushAll("m1", "b/c")
@@ -765,6 +878,12 @@ func (*c15) Gen(rng *RNG, tier string) []Case {
 			})
 		}
 	}
+	// 2c. one Write reaches one member only; then close, resume by asking, write the rest, commit
+	for _, which := range []string{"0", "1"} {
+		for nth := 1; nth <= 3; nth++ {
+			cases = append(cases, Case{Tag: "chunked:diverge", Lines: []string{fmt.Sprintf("uni diverge %s %d", which, nth)}})
+		}
+	}
 	nHist, nRel, nMerge, histLen, nReads := 220, 120, 400, 40, 30
 	if tier == "thorough" {
 		nHist, nRel, nMerge, histLen, nReads = 3000, 1500, 20000, 150, 80
@@ -883,6 +1002,10 @@ func (*c15) Oracle(c Case, impl []string) []Failure {
 	type key struct{ who, op string }
 	last := map[key]int{} // most recent line index of (who, op text); reset by any mutation
 	for i, l := range c.Lines {
+		if strings.HasPrefix(l, "uni diverge ") && i < len(impl) && !strings.HasPrefix(impl[i], "diverge ok") {
+			fs = append(fs, Failure{Class: "uni-diverged-upload-resumed", Oracle: "members_stay_equal", Index: i, Expected: "the resume refused, or both members holding the same at the end", Observed: impl[i]})
+			continue
+		}
 		if i >= len(impl) {
 			break
 		}
